@@ -481,6 +481,7 @@ def run(chk):
     from rules import c05_boot
     c05_boot.run(chk, prog)
     _dynown_rule(chk, prog)
+    _coerceall_rule(chk, prog)
 
 
 def _dynown_rule(chk, prog):
@@ -519,3 +520,80 @@ def _dynown_rule(chk, prog):
                           "prototype chain shows - a child that sets a key to the value it currently inherits keeps no entry of its own and "
                           "sees the parent's later rebinding" % (name, last.loc))
     chk.floor(rule, 2, n)
+
+
+def _coerceall_rule(chk, prog):
+    """While C code has re-entered the interpreter (janet_call: a peg cmt function, a sort comparator), nothing can
+    suspend or leave through the C frames: every signal other than ok that is raised there arrives in the caller as an
+    error.  janet_call does that for signals that come back from the fiber it runs, janet_signalv for signals raised
+    by C functions (`signal`, `return` to a prompt) while the flag is set.  Both must coerce the same set - all of them:
+    a user signal 0-4 that is let through jumps over the C frames and reaches an enclosing fiber as itself."""
+    rule = "C05-COERCEALL"
+    chk.rule(rule, "janet_signalv (under coerce_error) turns every signal other than ok into an error: its coercion condition evaluated for each of the 14 signals")
+    names = prog.enumtypes.get("JanetSignal")
+    if not names:
+        raise AnalysisBroken("enum JanetSignal not found")
+    val = {n: i for i, n in enumerate(names)}
+    fn = prog.need_func("janet_signalv", "capi.c")
+    chk.analysed(fn)
+    sp = fn.params[0]["n"]
+    sets = [x for x in fn.nodes if x.k == "asg" and x.op == "=" and is_ref(x.kids[0]) and x.kids[0].name == sp
+            and is_ref(strip_casts(x.kids[1])) and strip_casts(x.kids[1]).name == "JANET_SIGNAL_ERROR"]
+    if not sets:
+        raise AnalysisBroken("janet_signalv: the coercion `sig = JANET_SIGNAL_ERROR` was not found")
+    guard = sets[0].parent
+    while guard is not None and not (guard.k == "if" and any(z is sets[0] for z in guard.kids[1].walk())):
+        guard = guard.parent
+    if guard is None:
+        raise AnalysisBroken("janet_signalv: the coercion is not under an if")
+    inits = {d.name: d.kids[0] for d in fn.nodes if d.k == "vardecl" and d.kids}
+
+    def ev(e, sig, depth=0):
+        e = strip_casts(e)
+        if e is None or depth > 8:
+            return None
+        while e.k == "paren" and e.kids:
+            e = strip_casts(e.kids[0])
+        if e.v is not None:
+            return e.v
+        if is_ref(e):
+            if e.name == sp:
+                return sig
+            if e.name in val:
+                return val[e.name]
+            if e.name in inits:
+                return ev(inits[e.name], sig, depth + 1)
+            return None
+        if e.k == "mem" and e.field == "coerce_error":
+            return 1
+        if e.k == "un" and e.op == "!":
+            a = ev(e.kids[0], sig, depth + 1)
+            return None if a is None else int(not a)
+        if e.k == "bin":
+            a = ev(e.kids[0], sig, depth + 1)
+            if e.op == "&&" and a == 0:
+                return 0
+            if e.op == "||" and a not in (0, None):
+                return 1
+            b = ev(e.kids[1], sig, depth + 1)
+            if a is None or b is None:
+                return None
+            ops = {"==": a == b, "!=": a != b, "<": a < b, "<=": a <= b, ">": a > b, ">=": a >= b, "&&": bool(a) and bool(b), "||": bool(a) or bool(b)}
+            return int(ops[e.op]) if e.op in ops else None
+        return None
+    res = {n: ev(guard.kids[0], i) for n, i in val.items()}
+    chk.instance(rule)
+    if any(v is None for v in res.values()):
+        chk.ok(rule, "janet_signalv: coercion condition `%s` could not be evaluated" % guard.kids[0].text()[:50])
+        chk.note("%s: condition not evaluable; not decided" % rule)
+    else:
+        through = sorted(n for n, v in res.items() if not v and n not in ("JANET_SIGNAL_OK", "JANET_SIGNAL_ERROR"))
+        if through:
+            chk.violation(rule, "capi.c", "janet_signalv", "through:" + ",".join(t.replace("JANET_SIGNAL_", "").lower() for t in through)[:40], guard.loc,
+                          "with coerce_error set janet_signalv lets %s through as themselves (condition `%s`): raised by `signal` or by a `return` to a "
+                          "prompt from Janet code that C called back, they jump over the C frames and reach the enclosing fiber as a user signal "
+                          "instead of an error - and janet_call, the other half of the same rule, would have coerced them" % (
+                              ", ".join(t.replace("JANET_SIGNAL_", "").lower() for t in through), guard.kids[0].text()[:60]))
+        else:
+            chk.ok(rule, "janet_signalv coerces every signal other than ok (an error stays an error)")
+    chk.floor(rule, 1)
